@@ -5,16 +5,27 @@ optional read register (latency 1), optional read-modify-write data, noConflicts
 import random
 
 
-def gen_mem_design(seed, did):
+def gen_mem_design(seed, did, fill_prob=0.15, exact_lookup=False):
+    """exact_lookup: shape aimed at partially undefined READ ADDRESSES (differential checks only, too big for
+    certificates): power-of-two depth 4 or 8, EXACT undefined-address mode, fully defined pairwise different words"""
     r = random.Random(seed)
     s = [f"design {did}"]
     depth = r.choice([2, 2, 3, 4])
     width = r.choice([1, 1, 2])
-    abits = 1 if depth == 2 else 2
+    if exact_lookup:
+        depth, width = r.choice([4, 4, 8]), r.choice([2, 3, 4])
+    abits = 1 if depth == 2 else 2 if depth <= 4 else 3
     opts = []
-    if r.random() < 0.25: opts.append("noconf")
-    if r.random() < 0.2: opts.append("zero")
-    if r.random() < 0.3: opts.append("exact")          # UndefinedReadAddrBehavior::EXACT (scl::Sequencer uses it)
+    if r.random() < 0.25 and not exact_lookup: opts.append("noconf")
+    if r.random() < 0.2 and not exact_lookup: opts.append("zero")
+    if r.random() < 0.3 or exact_lookup: opts.append("exact")          # UndefinedReadAddrBehavior::EXACT (scl::Sequencer uses it)
+    if exact_lookup:
+        words = r.sample(range(1 << width), min(depth, 1 << width))
+        while len(words) < depth: words.append(r.randrange(1 << width))
+        opts.append("fill=" + "".join(format(w, f"0{width}b") for w in reversed(words)))
+    elif "zero" not in opts and r.random() < fill_prob:
+        # declared power-on contents (mostly defined, words differ): reads are informative from the first cycle on
+        opts.append("fill=" + "".join(("X" if r.random() < 0.08 else r.choice("01")) for _ in range(depth * width)))
     in_bits = 0
     def pin(prefix, w, bit=False):
         nonlocal in_bits
